@@ -24,11 +24,12 @@ ParSide(c, reg) == IF SideOf(reg) = "l" THEN [gm1 |-> c.par.gm1l, gamma |-> c.pa
                                         ELSE [gm1 |-> c.par.gm1r, gamma |-> c.par.gammar]
 EosClauses(c, e) ==
   LET row == RowOf(c) t == TolOf(c).sl IN
-  CASE e.reg = "vacuum" \/ (row.eos = "suolson" /\ ~Has(e.v, "u")) \/ (row.eos = "radshock" /\ ~Has(e, "wave")) -> {}            \* documented vacuum: rho = p = 0, the specific energy is undefined
+  CASE e.reg = "vacuum" \/ (row.eos = "suolson" /\ ~Has(e.v, "u")) \/ (row.eos = "radshock" /\ ~Has(e, "wave") /\ ~Has(e.v, "p")) -> {}            \* documented vacuum: rho = p = 0, the specific energy is undefined
     [] row.eos = "radshock" ->               \* the profile travels with M0 x the upstream sound speed of the USER's gamma, Cv, Tref
             IF Has(e, "wave")
             THEN Chk("RAD.wave-speed", Same(e.v.speed, Mul(c.par.M0, PowQ(Mul(Mul(c.par.gamma, c.par.gm1), Mul(c.par.Cv, c.par.Tref)), <<1, 2>>)), 100))
-            ELSE {}
+            ELSE \* the material: an ideal gas with constant specific heat
+                 EosGamma(c.par, e.v, t) \cup Chk("EOS.e=Cv.T", Same(e.v.e, Mul(c.par.Cv, e.v.T), t))
     [] row.eos = "suolson" ->                \* the dimensionless variables follow from the user's opacity, alpha and boundary temperature
             Chk("SUOL.conversion.epsilon", Same(c.par.eps, Div(SL_4a, c.par.alpha), 5))
        \cup Chk("SUOL.conversion.x", Same(c.par.dxdz, Mul(SL_rt3, c.par.opac), 5))
@@ -41,6 +42,8 @@ EosClauses(c, e) ==
     [] row.eos = "rmtv"     ->               \* p = (gamma-1) rho e and (gamma-1) e = Gamma T ; nothing to say in the cold gas (e = T = 0)
             IF e.reg = "cold" THEN {}
             ELSE EosGamma(c.par, e.v, t) \cup Chk("EOS.(g-1)e=Gamma.T", Same(Mul(c.par.gm1, e.v.e), Mul(c.par.bigamma, e.v.T), t))
+    [] row.eos = "sound"    ->               \* reaction zone: p, rho and c are returned (no energy): c^2 = gamma p / rho
+            Chk("EOS.c2=g.p/rho", e.v.p.s = 0 \/ Same(Sq(e.v.c), Div(Mul(c.par.gamma, e.v.p), e.v.rho), 2 * t))
     [] row.eos = "gamma"    -> EosGamma(c.par, e.v, t)
     [] row.eos = "gamma2"   -> EosGamma(ParSide(c, e.reg), e.v, t)
     [] row.eos = "cog"      -> EosCog(c.par, e.v, t)
